@@ -28,6 +28,8 @@ Aead2022 == {"2022-blake3-aes-128-gcm", "2022-blake3-aes-256-gcm", "2022-blake3-
 DocCiphers == Legacy \cup Aead2022
 BadCiphers == {"aes-192-gcm", "AES-128-GCM", "2022-blake3-aes-128-ccm", "none", "rc4-md5"}
 VMessCiphers == {"aes-128-gcm", "chacha20-poly1305"}
+\* documented names, but in the Shadowsocks column of the README's cipher table only (a sample of them)
+ShadowsocksOnly == {"aes-256-gcm", "2022-blake3-aes-128-gcm", "2022-blake3-chacha20-poly1305"}
 
 DocProtocols == {"shadowsocks", "vmess", "trojan"}
 BadProtocols == {"socks5", "Shadowsocks"}
@@ -64,7 +66,8 @@ Tuples ==
       s \in Sides, c \in {"aes-256-gcm", "2022-blake3-aes-128-gcm"}, k \in {"password", "exact"}, l \in Links \ {"tcp"} }
   \cup  \* VMess and Trojan (and names that are no protocol) on every link
   { [side |-> s, proto |-> p, cipher |-> c, mode |-> m, key |-> "password", link |-> l] :
-      s \in Sides, p \in {"vmess", "trojan"} \cup BadProtocols, c \in VMessCiphers, m \in {"absent", "tcp", "udp", "tcp_and_udp"}, l \in Links }
+      s \in Sides, p \in {"vmess", "trojan"} \cup BadProtocols, c \in VMessCiphers \cup BadCiphers \cup ShadowsocksOnly,
+      m \in {"absent", "tcp", "udp", "tcp_and_udp"}, l \in Links }
 
 Relevant(t) ==
   /\ (t.proto = "shadowsocks" /\ t.cipher \in Aead2022) => t.key \in KeyForms2022
@@ -76,7 +79,10 @@ Relevant(t) ==
   /\ (t.proto \in BadProtocols) => (t.cipher = "aes-128-gcm" /\ t.mode = "absent" /\ t.link \in {"tcp", "tls"})
   \* VMess / Trojan: the mode names matter on the client only; a server is started with the default and one other
   /\ (t.proto \in {"vmess", "trojan"} /\ t.side = "server") => t.mode \in {"absent", "tcp_and_udp"}
-  /\ (t.proto = "trojan") => t.cipher = "aes-128-gcm"
+  /\ (t.proto = "trojan") => t.cipher \in {"aes-128-gcm", "aes-256-gcm"} \cup BadCiphers
+  \* cipher names outside the VMess column with VMess / Trojan: default and combined mode, three links
+  /\ (t.proto \in {"vmess", "trojan"} \cup BadProtocols /\ t.cipher \notin VMessCiphers)
+        => (t.proto \in {"vmess", "trojan"} /\ t.mode \in {"absent", "tcp_and_udp"} /\ t.link \in {"tcp", "wss", "quic"})
   \* client mode "udp" alone is exercised on the plain and the QUIC link
   /\ (t.proto \in {"vmess", "trojan"} /\ t.side = "client" /\ t.mode = "udp") => t.link \in {"tcp", "tls", "quic"}
 
@@ -87,7 +93,11 @@ UdpLink(p, l) == \/ p = "shadowsocks" /\ l = "tcp"     \* its own UDP port next 
 
 Documented(t) ==
   LET okNames == /\ t.proto \in DocProtocols
-                 /\ (t.proto = "shadowsocks" => t.cipher \in DocCiphers)
+                 /\ t.cipher \in DocCiphers                         \* an unknown cipher name is refused whatever the protocol
+                 \* InconsistentRefused: the cipher selects the VMess client's algorithm; a name from the Shadowsocks
+                 \* column does not silently become AES-128-GCM.  (A VMess server takes the algorithm from each request and a
+                 \* Trojan peer has none to select: there the field selects nothing and any documented name is accepted.)
+                 /\ ((t.proto = "vmess" /\ t.side = "client") => t.cipher \in VMessCiphers)
                  /\ (t.side = "server" => t.mode \in ServerModes) /\ (t.side = "client" => t.mode \in ClientModes)
       okKey == t.proto # "shadowsocks" \/ KeyOk(t.cipher, t.key)
       acc == okNames /\ okKey
@@ -162,6 +172,7 @@ Impl(t) ==
      ELSE IF t.side = "client"
        THEN IF ~EnableTcp(t.mode) /\ (~EnableUdp(t.mode) \/ "UdpModeExits" \in Dev) THEN Dead     \* main returns at once
             ELSE IF ~keyOk THEN Dead        \* "create client context failed": main returns, the sockets go with it
+            ELSE IF t.proto = "vmess" /\ t.cipher \notin VMessCiphers /\ "VMessAnyCipher" \notin Dev THEN Dead
             ELSE [alive |-> TRUE, tcp |-> EnableTcp(t.mode), udp |-> EnableUdp(t.mode), panic |-> FALSE, ok |-> all, ran |-> all]
      ELSE IF t.proto = "shadowsocks"
        THEN IF ~keyOk THEN Dead
